@@ -29,6 +29,7 @@ class Ctx:
         self.tier = tier
         self.seed = seed
         self.thorough = tier == "thorough"
+        self.alt = False          # second pass of a check with procfs mounted elsewhere (vf/child.py)
         self.ncpu = int(os.environ.get("VF_JOBS", "0") or 0) or (os.cpu_count() or 4)
         self._pool = None
 
